@@ -21,3 +21,7 @@ open Verif.Props.C03
 #print axioms tag_classes_ok
 #print axioms Verif.Proofs.HtmlOptional.p_tables_ok
 #print axioms Verif.Proofs.HtmlOptional.omittable_finite
+#print axioms raw_text_contained
+#print axioms raw_text_relexed
+#print axioms cond_comment_inner_safe
+#print axioms Verif.Proofs.HtmlRawText.spec_of_rawEnd
